@@ -70,6 +70,10 @@ func Insert(id ID, data []byte) ([]byte, error) {
 	// We manually create and add the JSON as this is just simply the quickest
 	// way to do it.
 	data = bytes.TrimLeft(data, "{")
+	if len(bytes.TrimSpace(bytes.TrimRight(data, "}"))) == 0 {
+		// nothing but the schema: no comma before the closing brace
+		return sdata, nil
+	}
 	sdata = append(bytes.TrimRight(sdata, "}"), byte(','))
 	data = append(sdata, data...)
 
